@@ -1,12 +1,83 @@
+import os, sys
+sys.path.insert(0, os.path.dirname(os.path.dirname(os.path.abspath(__file__))))
+import checklib
+
+
+def regen(ctx):
+    q, e, t = "runtime/timed/queue.go:", "runtime/timed/executor.go:", "runtime/timed/taskexecutor.go:"
+    return checklib.regen_skeletons(ctx, [
+        q + "Queue.Add", q + "Queue.Shutdown", q + "Queue.Poll", q + "QueueElement.Cancel", q + "Queue.removeElement",
+        q + "QueueElement.isCanceled", e + "Executor.Shutdown", e + "Executor.startBackgroundWorkers",
+        t + "TaskExecutor.ExecuteAt", t + "TaskExecutor.Cancel",
+    ], extra_methods=["Wait", "Signal", "Broadcast", "Cancel", "Add", "Poll", "ExecuteAt", "Get", "Set", "Delete",
+                      "Push", "Pop", "Remove"])
+
+
 SPEC = {
     "lean_props": "Hive.Props.C18",
+    "regen": regen,
     "lean_namespace": "Hive.Timed",
     "driver": "drv_c18",
     "harness": "c18",
     "race": True,
-    "trusted_base": ["hand-written protocol model Hive/Model/Timed.lean of runtime/timed (queue.go, executor.go, taskexecutor.go, container/heap over generalheap), tied by differential execution of the model's own transition function under a deterministic scheduler (harness/c18) and by the trace predicate okLog on stress traces",
-                     "Go toolchain and runtime timers, compiled Lean driver"],
-    "modelled": [],
-    "manifest": {},
-    "assumptions": [],
+    "harness_timeout": {"quick": 600, "thorough": 3000},
+    "theorems": ["C18_trace_ok", "C18_never_early", "C18_never_early_run", "C18_at_most_once",
+                 "C18_cancel_before_pop_never_delivered", "C18_cancel_true_never_runs", "C18_cancel_result",
+                 "C18_one_pending_per_id", "C18_cancel_false_nothing_pending", "C18_reschedule_replaces",
+                 "C18_cancel_true_iff_prevented_partial", "C18_cancel_true_size_bound_witness",
+                 "C18_cancel_true_after_shutdown_witness", "C18_eventually_delivered", "C18_due_element_moves",
+                 "C18_shutdown_wakes_pollers", "C18_skeleton_add", "C18_skeleton_shutdown", "C18_skeleton_poll",
+                 "C18_skeleton_cancel", "C18_skeleton_executor", "C18_skeleton_taskexecutor"],
+    "trusted_base": [
+        "hand-written protocol model Hive/Model/Timed.lean of runtime/timed (queue.go, executor.go, taskexecutor.go over container/heap "
+        "and generalheap); ties: (1) differential execution of the model's own transition function under a deterministic scheduler "
+        "against the real TaskExecutor driven at well separated instants (harness/c18 + drv_c18), (2) the trace predicate okLog "
+        "evaluated on stress / forced-schedule traces of the real code, (3) regenerated synchronisation skeletons "
+        "(Hive/Gen/C18_Skel.lean) as proof obligations",
+        "Go's sync.Mutex / sync.Cond / select / context / timer semantics as written down in the model (Wait registers before "
+        "unlocking; Signal wakes one registered waiter and is lost without one; Broadcast wakes all; select picks any ready case; "
+        "a timer is ready iff clock >= deadline; the clock is monotone)",
+        "Go toolchain and runtime timers, compiled Lean driver"],
+    "modelled": [
+        "Queue.Add/Poll/Shutdown(flags)/Size, QueueElement.Cancel, Executor workers and Shutdown (WaitGroup), TaskExecutor.ExecuteAt/Cancel "
+        "and its wrapper, callbacks that block / re-schedule their own identifier / cancel their own identifier",
+        "every critical section under heapMutex is one atomic step; ExecuteAt is two steps holding the map mutex, Shutdown three",
+        "the heap is container/heap's up/down over the generalheap slice, exactly (ties, size-bound victim); the theorems need only "
+        "that its operations permute (proved); that Pop yields an earliest element is C12's heap property and is validated here by "
+        "the differential run only",
+        "NOT modelled: Queue.Poll(waitIfEmpty=false) and direct Queue use without an Executor (Executor.ExecuteAt exercises the "
+        "same Add/Poll/Cancel/Shutdown code); ScheduledTask.Cancel() called directly on a TaskExecutor task; Executor.Shutdown "
+        "called from inside a callback; callbacks that never return; time.Time wall-clock jumps",
+        "liveness is stated as absence of stuck configurations (some executor goroutine can step or waits only for the clock / "
+        "the harness), not as a fairness-based eventuality"],
+    "manifest": {
+        "text": "Theorems over all reachable configurations of a protocol model of runtime/timed (any size bound, any number of "
+                "workers >= 1 and controller goroutines with arbitrary scripts of ExecuteAt / Cancel(id) / element Cancel / "
+                "Shutdown(flags) at arbitrary times, callbacks that block, re-schedule or cancel their own identifier, a clock "
+                "advancing at any step, all interleavings): the event log satisfies the trace predicate okLog (C18_trace_ok) - "
+                "never early unless IgnorePendingTimeouts (C18_never_early, _run), at most once and in one place "
+                "(C18_at_most_once), never delivered after a completed Cancel (C18_cancel_before_pop_never_delivered), never run "
+                "after Cancel(id)=true or after being replaced (C18_cancel_true_never_runs, C18_reschedule_replaces); at most one "
+                "pending task per identifier and none when Cancel(id) returns false (C18_one_pending_per_id, "
+                "C18_cancel_false_nothing_pending); no stuck configuration with a pending element, also after Shutdown without "
+                "CancelPendingElements (C18_eventually_delivered), Shutdown wakes every waiting poller "
+                "(C18_shutdown_wakes_pollers). Cancel(id)=true implies a pending task only without size bound and before "
+                "Shutdown (C18_cancel_true_iff_prevented_partial; full statement C18_statement refuted by two witnesses replayed "
+                "on the code, recorded as known findings). Tie: the real TaskExecutor is driven from one goroutine at instants tens "
+                "of ms apart (operations at even, due times at odd clock values; timing validity judged by a canary goroutine and "
+                "the harness's own lateness, invalid cases re-run with a larger unit) and must give line by line the answers of "
+                "the compiled Lean model run under a deterministic scheduler (return values, Size(), which task ran in which "
+                "clock unit, when Shutdown returned); forced schedules through two verif hooks (Poll before select, Add before "
+                "insertion); stress traces judged by okLog; independent Go oracle (early, double, ran after Cancel true, wrong "
+                "Cancel result, replaced task ran, missing delivery, Shutdown hang); regenerated synchronisation skeletons.",
+        "note": "Trusted: Lean kernel; the hand-written model and Go's sync/timer semantics as modelled; real-time tie with generous "
+                "margins (cases whose own timing was disturbed are re-run, persistently disturbed ones dropped and counted). Seven "
+                "defects of the unchanged tree were exhibited and repaired by fix: commits, two remain as known findings.",
+        "technique": "Lean 4 inductive invariants over an interleaving protocol model (counting invariants per element serial, "
+                     "registry invariants, condition-variable accounting) + differential execution of the model's transition "
+                     "function + trace-predicate conformance + regenerated skeleton obligations",
+    },
+    "assumptions": ["callbacks terminate unless the harness blocks them (progress theorem excuses goroutines waiting for the harness)",
+                    "at least one worker goroutine (progress theorem)",
+                    "TaskExecutor tasks are cancelled through Cancel(id), not through their ScheduledTask handle"],
 }
